@@ -194,7 +194,10 @@ func (d *Decoder) LoadParityData() error {
 
 	// TODO: Count only files saved in volume set.
 	fileCount := d.indexVolume.header.FileCount
-	maxParityVolumeCount := 256 - fileCount
+	var maxParityVolumeCount uint64
+	if fileCount < 256 {
+		maxParityVolumeCount = 256 - fileCount
+	}
 	// TODO: Support more than 99 parity volumes.
 	if maxParityVolumeCount > 99 {
 		maxParityVolumeCount = 99
@@ -258,7 +261,10 @@ func (d *Decoder) LoadParityData() error {
 	}
 
 	d.shardByteCount = shardByteCount
-	d.parityData = parityData[:maxI+1]
+	if len(parityData) > 0 {
+		parityData = parityData[:maxI+1]
+	}
+	d.parityData = parityData
 	return nil
 }
 
